@@ -48,10 +48,10 @@ macro_rules! with_parser {
     ($backend:expr, $s:expr, $p:ident => $body:expr) => {{
         let backend: &str = $backend;
         if backend == "str" {
-            let $p = Parser::new(StrInput::new($s));
+            let $p = Parser::new_from_str($s);
             $body
         } else if backend == "iter" {
-            let $p = Parser::new(BufferedInput::new($s.chars()));
+            let $p = Parser::new_from_iter($s.chars());
             $body
         } else if let Some(n) = backend.strip_prefix("cap") {
             let n: usize = n.parse().unwrap();
